@@ -331,6 +331,207 @@ def destroy_coverage(prog, res):
                  "storage_properties_dimensions_destroy does not release %s" % ("the elements' names" if not has_elem else "the array"))
 
 
+def string_buffer(prog, res, rule="R-STRBUF"):
+    """copy_string by the linear-relations domain with an allocation ghost:
+    every pointer value carries (capacity, live).  malloc(n) / realloc(p, n)
+    create a live allocation of n bytes (realloc retires p on success); the
+    destination's incoming buffer is live with capacity >= its recorded length
+    provided the string is owned (is_ref == 0, str != NULL) - otherwise it is
+    the caller's memory and must not be written.  Obligations: every memset /
+    memcpy through dst->str targets a live allocation of at least that many
+    bytes (and never the un-owned incoming buffer); a successful return leaves
+    an owned string whose recorded length equals the (possibly defaulted)
+    source's and fits the allocation."""
+    from .. import linear as L
+    f = prog.func("copy_string")
+    res.touched(f)
+    dstp, srcp = f.params[0], f.params[1]
+    problems = []
+
+    def alloc_of(st, v):
+        syms = [k for k in v if k != L.ONE]
+        if len(syms) != 1 or v[syms[0]] != 1 or v.get(L.ONE, 0) != 0:
+            return None, None
+        return syms[0], st.tags.get("alloc", {}).get(syms[0])
+
+    def m_malloc(an, f_, e, st):
+        n = an.eval(f_, e["args"][0], st)[0][0]
+        p = an.fresh(st, "heap", False)
+        st.tags.setdefault("alloc", {})[list(p)[0]] = (n, True)
+        s2 = st.copy()
+        return [(p, st), (L.lconst(0), s2)]
+
+    def m_realloc(an, f_, e, st):
+        old = an.eval(f_, e["args"][0], st)[0][0]
+        n = an.eval(f_, e["args"][1], st)[0][0]
+        fail = st.copy()
+        p = an.fresh(st, "heap", False)
+        a = st.tags.setdefault("alloc", {})
+        osym, oa = alloc_of(st, old)
+        if osym is not None and oa is not None:
+            a[osym] = (oa[0], False)
+        elif osym is not None:
+            a[osym] = (L.lconst(0), False)
+        a[list(p)[0]] = (n, True)
+        return [(p, st), (L.lconst(0), fail)]
+
+    def check_write(an, f_, e, st, what):
+        d = an.eval(f_, e["args"][0], st)[0][0]
+        n = an.eval(f_, e["args"][2], st)[0][0]
+        sym, a = alloc_of(st, d)
+        if sym is None:
+            problems.append("%s writes through a pointer that is not the start of a buffer (%s)" % (what, L.lshow(d)))
+            return
+        if a is None and sym.startswith("ptr:") and sym.endswith("->str") and sym.startswith("ptr:%s" % dstp["n"]):
+            # the incoming buffer: usable only if the string owns it
+            isref0 = L.lvar("%s->is_ref#0" % dstp["n"])
+            nb0 = L.lvar("%s->nbytes#0" % dstp["n"])
+            an.read(st, "%s->is_ref" % dstp["n"]) if ("%s->is_ref" % dstp["n"]) not in st.cells and st.ver.get("%s->is_ref" % dstp["n"], 0) == 0 else None
+            own = st.entails_eq(isref0) and not _consistent(st, [("eq", d)])
+            if not own:
+                problems.append("%s can write into the destination's incoming buffer although the string does not own it (is_ref set or str NULL): the caller's memory is overwritten" % what)
+                return
+            if not st.entails_le(L.lsub(n, nb0)):
+                problems.append("%s can write %s bytes into the incoming buffer, whose size is only known to be its recorded length %s" % (what, L.lshow(n), L.lshow(nb0)))
+            return
+        if a is None:
+            problems.append("%s writes through %s, which is not a buffer of the destination string" % (what, sym))
+            return
+        cap, live = a
+        if not live:
+            problems.append("%s writes through a pointer that realloc has retired (the new pointer was not stored)" % what)
+        elif not st.entails_le(L.lsub(n, cap)):
+            problems.append("%s writes %s bytes into an allocation of %s bytes" % (what, L.lshow(n), L.lshow(cap)))
+
+    def m_memset(an, f_, e, st):
+        check_write(an, f_, e, st, "memset")
+        return [(an.fresh(st, "call:memset", False), st)]
+
+    def m_memcpy(an, f_, e, st):
+        check_write(an, f_, e, st, "memcpy")
+        srcv = an.eval(f_, e["args"][1], st)[0][0]
+        if _consistent(st, [("eq", srcv)]):
+            problems.append("memcpy can read from a NULL source string: a missing / empty source is not replaced by the empty string")
+        return [(an.fresh(st, "call:memcpy", False), st)]
+
+    def _consistent(st, conj):
+        s2 = st.copy()
+        s2.cons += conj
+        return s2.feasible()
+    an = L.Analysis(prog)
+    an.models.update({"malloc": m_malloc, "realloc": m_realloc, "memset": m_memset, "memcpy": m_memcpy})
+    st0 = L.State()
+    rets = an.run(f, st0)
+    good = 0
+    for rv, st in rets:
+        if rv is None or (L.is_const(rv) and rv.get(L.ONE, 0) == 0):
+            continue
+        good += 1
+        d = st.cells.get("%s->str" % dstp["n"], L.lvar("ptr:%s->str" % dstp["n"]))
+        nb = st.cells.get("%s->nbytes" % dstp["n"])
+        isref = st.cells.get("%s->is_ref" % dstp["n"], L.lvar("%s->is_ref#0" % dstp["n"]))
+        if not st.entails_eq(isref):
+            problems.append("a successful copy can leave the destination marked as a reference (is_ref != 0): destroy will not free it / the next copy re-allocates and leaks")
+        sym, a = alloc_of(st, d)
+        if nb is None:
+            problems.append("a successful copy does not record the new length")
+        elif a is not None and a[1] and not st.entails_le(L.lsub(nb, a[0])):
+            problems.append("a successful copy records a length (%s) larger than the allocation (%s)" % (L.lshow(nb), L.lshow(a[0])))
+        elif a is not None and not a[1]:
+            problems.append("a successful copy leaves dst->str pointing at memory realloc has retired")
+    inst = "copy_string: writes stay inside a live, owned allocation; the result is owned and its length fits"
+    if good == 0:
+        problems.append("copy_string never succeeds")
+    if problems:
+        for m in sorted(set(problems)):
+            res.fail(rule, inst, "%s|copy_string" % rule, f.loc(), "copy_string: " + m)
+    else:
+        res.oblige(rule, inst, True, "%d successful return state(s)" % good, f.loc())
+
+
+def dimension_rules(prog, res, rule="R-DIMS"):
+    """Dimension arrays: a name is freed only when the string owns it
+    (dominated by is_ref == 0); every loop over a dimension array visits
+    exactly the elements 0 .. size-1; storage_properties_set_dimension stores
+    every one of its value parameters into the addressed element."""
+    from .. import linear as L
+    n = 0
+    for f in prog.all_funcs():
+        if not f.file.endswith("props/storage.c") or not f.blocks:
+            continue
+        # free(x.str) only for owned strings
+        for b, i, st_ in f.all_stmts():
+            for c in ir.calls_in(st_):
+                if c.get("fn") == "free" and c.get("args"):
+                    a0 = ir.strip(c["args"][0])
+                    if isinstance(a0, dict) and a0.get("k") == "mem" and a0.get("f") == "str":
+                        owner = ir.ap(a0["b"])
+
+                        def owned(cn, lab, blk, owner=owner):
+                            c0 = ir.strip(cn)
+                            neg = False
+                            while isinstance(c0, dict) and c0.get("k") == "un" and c0.get("op") == "!":
+                                neg = not neg
+                                c0 = ir.strip(c0["e"])
+                            if isinstance(c0, dict) and c0.get("k") == "bin" and c0.get("op") in ("==", "!="):
+                                l, r = ir.strip(c0["l"]), ir.strip(c0["r"])
+                                for x, y in ((l, r), (r, l)):
+                                    if isinstance(x, dict) and x.get("k") == "mem" and x.get("f") == "is_ref" and ir.ap(x["b"]) == owner and ir.is_const(y, 0):
+                                        return (lab == "true") == ((c0["op"] == "==") != neg)
+                            if isinstance(c0, dict) and c0.get("k") == "mem" and c0.get("f") == "is_ref" and ir.ap(c0["b"]) == owner:
+                                return (lab == "true") == neg   # bare `is_ref`: owned on the false edge
+                            return False
+                        dom, _ = paths.edge_dominated(f, (b.id, i), owned)
+                        n += 1
+                        res.touched(f)
+                        inst = "%s: %s.str is freed only when the string owns it" % (f.name, owner)
+                        if dom:
+                            res.oblige(rule, inst, True, "dominated by is_ref == 0", f.loc(st_))
+                        else:
+                            res.fail(rule, inst, "%s|%s|free-owned" % (rule, f.name), f.loc(st_),
+                                     "%s can free %s.str although the string only references caller memory (is_ref != 0), or skip the free for an owned one" % (f.name, owner))
+        # loops over a dimension array
+        for head, body in paths.natural_loops(f):
+            c = f.blocks[head].cond_node()
+            if c is None or not any(y.get("k") == "mem" and y.get("f") == "size" and "acquisition_dimensions" in (ir.ap(y) or "") for y in ir.walk(c)):
+                continue
+            szn = [y for y in ir.walk(c) if y.get("k") == "mem" and y.get("f") == "size"][0]
+            probs = L.counted_loop_problems(prog, f, head, body, lambda an, s_, f=f, szn=szn: an.eval(f, szn, s_)[0][0])
+            n += 1
+            res.touched(f)
+            inst = "%s: the loop over the dimension array visits 0 .. size-1" % f.name
+            if probs:
+                res.fail(rule, inst, "%s|%s|range" % (rule, f.name), "%s:%s" % (f.file, f.blocks[head].tline),
+                         "%s: %s: a dimension is skipped (its name leaks / is not copied) or the array is indexed out of bounds" % (f.name, "; ".join(probs)))
+            else:
+                res.oblige(rule, inst, True, "i = 0; i < size; ++i", "%s:%s" % (f.file, f.blocks[head].tline))
+    g = prog.func("storage_properties_set_dimension")
+    res.touched(g)
+    used = set()
+    for b, i, st_ in g.all_stmts():
+        for lv, op, rhs, w in ir.writes_of(st_):
+            if lv.get("k") == "mem" and isinstance(rhs, dict):
+                used |= {y["id"] for y in ir.walk(rhs) if y.get("k") == "var" and "p" in y}
+        for c in ir.calls_in(st_):
+            if c.get("fn") == "copy_string":
+                # the String built from (name, bytes_of_name)
+                used |= {y["id"] for a in c["args"] for y in ir.walk(a) if y.get("k") == "var" and "p" in y}
+        if st_.get("k") == "decl" and isinstance(st_.get("init"), dict):
+            ids = {y["id"] for y in ir.walk(st_["init"]) if y.get("k") == "var" and "p" in y}
+            if ids and any(c.get("fn") == "copy_string" and any(y.get("k") == "var" and y.get("id") == st_["var"]["id"] for a in c["args"] for y in ir.walk(a))
+                           for b2, i2, s2 in g.all_stmts() for c in ir.calls_in(s2)):
+                used |= ids
+    for p in g.params[2:]:
+        n += 1
+        inst = "storage_properties_set_dimension stores its parameter '%s'" % p["n"]
+        if p["id"] in used:
+            res.oblige(rule, inst, True, "", g.loc())
+        else:
+            res.fail(rule, inst, "%s|set_dimension|%s" % (rule, p["n"]), g.loc(),
+                     "storage_properties_set_dimension never stores '%s' into the dimension: copies made through it lose that field" % p["n"])
+    return n
+
+
 def copy_string_rules(prog, res):
     f = prog.func("copy_string")
     res.touched(f)
@@ -493,6 +694,9 @@ def run(ctx, res):
     if n < 3:
         raise AnalysisBroken("expected three free() sites in the destroy functions, found %d" % n)
     copy_string_rules(prog, res)
+    res.guard(string_buffer, prog, res)
+    res.guard(dimension_rules, prog, res)
+    res.require_min("R-DIMS", 8)
     index_guard(prog, res)
     if o_pair_encaps(prog, res) < 1:
         raise AnalysisBroken("no store to acquisition_dimensions.size/data found")
@@ -500,3 +704,4 @@ def run(ctx, res):
     res.require_min("O-FIELDCOV", 14)
     res.require_min("O-FREE-NULL", 3)
     res.require_min("R-COPY-STRING", 5)
+    res.require_min("R-STRBUF", 1)
